@@ -6,8 +6,11 @@ lists of the modelled functions are regenerated from commands/discover.py on eve
 Tie: suggest_pattern / suggest_merchant_name / needle / suggested rule text / load+match outcome of
 the implementation vs the model (cases.v, vm_compute) on generated descriptions.
 Search (direct oracle, implementation only): the suggested rule text is fed to parse_merchants and
-matched against the very description — must load, must match; the discover -> append -> rerun loop
-through the CLI must strictly shrink the Unknown list."""
+matched against the very description — must load, must match; the same suggestion appended to a rules
+text that already holds a same-named rule (any letter case) not covering the description must load and
+the description must then match the rule carrying the suggested match text; the discover -> append ->
+rerun loop through the CLI (also with such pre-existing same-named rules) must strictly shrink the Unknown
+list. /repo has the repaired design since f2d3c2b: the old failure signatures are no longer known findings."""
 import csv
 import io
 import itertools
@@ -181,9 +184,10 @@ def sig_of(d, neg=False, dup='same'):
 
 def shrink(d, sig, neg=False, budget=120, dup='same'):
     """Delete words, then characters, keeping the same failure signature."""
+    d0 = d
     def fails(x):
         nonlocal budget
-        if budget <= 0 or not in_fragment(x):
+        if budget <= 0 or not in_fragment(x) or (d0.strip() and not x.strip()):     # keep a visible description
             return False
         budget -= 1
         return sig_of(x, neg, dup)[0] == sig
@@ -503,7 +507,7 @@ def main(tier):
     rnd = random.Random(run.seed + 1)
     budgets = list(CLI_BUDGETS)
     cliable = [c['d'] for c in cases if c['d'].strip() and all(32 <= ord(ch) < 127 for ch in c['d'])]
-    for _ in range(2 if tier == 'quick' else 40):
+    for _ in range(2 if tier == 'quick' else 20):
         budgets.append(rnd.sample(cliable, 6) + ['NETFLIX'])
     loops, loop_fail = [], False
     plan = [(AMAZON_BUDGET, False, AMAZON_RULES)] + [(descs, pre, '') for descs in budgets for pre in (False, True)]
